@@ -113,4 +113,7 @@ contract('parso.grammar.Grammar.parse',
                     'parso.python.parser.Parser.parse': 'parso.python.parser.Parser.parse#api'},
          attr_calls={'_parser': 'parso.python.parser.Parser#of-grammar', '_tokenizer': 'parso.grammar.PythonGrammar._tokenize_lines#api',
                      '_diff_parser': 'parso.python.diff.DiffParser#of-grammar'},
+         frame_prune={k: 'the parser, the diff parser and the tokenizer write to the worker objects created by this call and to the '
+                         'tree being built or updated in place; their effect on the modelled state is what the assumed contracts '
+                         'Parser.parse#api / DiffParser.update#api state' for k in ('parse', 'update', '_parser', '_diff_parser', '_tokenizer', '_tokenize_lines', 'tokenize_lines', '_tokenize')},
          props=['C16', 'C04'])
